@@ -120,6 +120,49 @@ def check_consts(ctx, facts):
         ctx.ob("CONST-irreducible", F.short(t, 1), ok, d)
 
 
+def then_closure_context(facts, b):
+    """A closure handed to `cond.then(closure)` runs only when cond holds: when cond is `x < K` / `x <= K` on an unsigned
+    x that the closure captured, the captured value starts in [0, K-1] / [0, K] (the closure environment is parameter 1)."""
+    if b.kind != "Closure" or "::{closure" not in b.path:
+        return None
+    par = facts.bodies.get(b.path.rsplit("::{closure", 1)[0])
+    if par is None:
+        return None
+    from rules.C06 import upvar_sources
+
+    def bare(e):
+        e = flow.strip_casts(e)
+        while e[0] in ("ref", "call") and (e[0] == "ref" or (re.search(r"(Clone::clone|Deref::deref|Borrow::borrow)$", e[1]) and e[2])):
+            e = flow.strip_casts(e[1] if e[0] == "ref" else e[2][0])
+        return e
+    old = flow.CLOSURE_DEFS
+    flow.CLOSURE_DEFS = True
+    try:
+        for bb, t in flow.find_calls(par, re.compile(r"<impl bool>::then$")):
+            f = flow.expr_of(par, t["args"][1], max_depth=4)
+            if not (f[0] == "agg" and isinstance(f[1], tuple) and f[1][:2] == ("closure", b.path)):
+                continue
+            cond = flow.strip_casts(flow.expr_of(par, t["args"][0], max_depth=14))
+            if cond[0] != "bin" or cond[1] not in ("Lt", "Le") or cond[3][0] != "const" or not isinstance(cond[3][1], int):
+                return None
+            x, hi = bare(cond[2]), cond[3][1] - (1 if cond[1] == "Lt" else 0)
+            ups = upvar_sources(facts, par, b.path)
+            fields = []
+            for i in range(16):
+                nm = flow.upvar_name(b, i)
+                if nm is None:
+                    break
+                # the captured value's type, read off the first copy out of the environment: unsigned only
+                tys = {b.local_ty(st["p"][0]) for _, _, st in b.iter_assigns() if len(st["p"]) == 1 and st["r"]["k"] == "use" and (lambda pl: pl and pl[0] == 1 and len(pl) > 1 and isinstance(pl[1], list) and pl[1][:2] == ["f", i])(F.op_place(st["r"]["o"]))}
+                unsigned = bool(tys) and all((R.ty_range(ty_ or "") or (1,))[0] == 0 for ty_ in tys)
+                fields.append(R.Iv(0, hi) if nm in ups and bare(ups[nm]) == x and hi >= 0 and unsigned else R.TOP)
+            if any(isinstance(v, R.Iv) for v in fields):
+                return [R.Struct(fields)]
+    finally:
+        flow.CLOSURE_DEFS = old
+    return None
+
+
 # ---------------------------------------------------------------------------------------------
 def check_range(ctx, facts):
     ctx.rule("RANGE-invariant: every aggregate site of a prime-field newtype T(v) has v in [0, PRIME-1] on every path (interval abstract interpretation; field-typed inputs and callee results assumed canonical, raw integers unconstrained)")
@@ -188,7 +231,7 @@ def check_range(ctx, facts):
 
             it = R.Interp(facts, on_agg=on_agg, on_assert=on_assert, call_model=call_model, type_invariants=invs)
             try:
-                it.run(b)
+                it.run(b, arg_values=then_closure_context(facts, b))
             except R.NotAnalysable as e:
                 ctx.ob("RANGE-invariant", f"{tshort}@{b.path}", False, f"body not analysable by the interval engine: {e}", site_of(b))
                 continue
